@@ -1,6 +1,6 @@
 import Litep2pVerif.Proofs.Substream.Codec
 import Litep2pVerif.Proofs.Substream.Sink
-import Litep2pVerif.Proofs.Substream.Roundtrip
+import Litep2pVerif.Proofs.Substream.Varint
 /-!
 # C04 — Framed substream messages round-trip exactly within configured limits
 
@@ -55,6 +55,55 @@ theorem alloc_bound_covers (codec : Codec) (st : RState) (car : Carrier) (h : Re
 /-- Non-vacuity: a state awaiting a 2-byte body under `max = 2` is reachable. -/
 example : Reach (.varint (some 2)) ⟨2, [], 0, some 2, []⟩ :=
   Reach.step (RState.init (.varint (some 2))) 1 (.ok [2]) Reach.init (by rfl) (by intro bs h; cases h; decide)
+
+/-! ## Round trip -/
+
+/-- **Round trip.** For every codec configuration (`Identity(n)`, `n ≥ 1`; `UnsignedVarint(max)`, any
+`max`), every list of messages the sender accepts (lengths below 2^64), and every behaviour of a
+healthy carrier — the wire bytes cut into arbitrary segments, each inner read returning any
+non-empty part of a segment that fits, `Pending` anywhere, the reader polled again after every
+`Pending` — the frames the reader returns are exactly the messages, in order, and nothing else. -/
+theorem stream_roundtrip (codec : Codec) (hc : codec ≠ .identity 0) (msgs : List Bytes)
+    (hm : ∀ m ∈ msgs, accepts codec m = true ∧ m.length < 2 ^ 64)
+    (car : Carrier) (hd : DataOnly car) (hb : carBytes car = encodeAll codec msgs) :
+    received codec car = msgs.map .frame := by
+  unfold received recvAll
+  rw [recvAllF_consume codec hc _ _ car (rinv_init codec) hd (by omega), hb]
+  refine (consume_all codec hc msgs _ (idle_init codec) (fun m h => ⟨(hm m h).1, ?_⟩)).1
+  cases codec with
+  | identity n => trivial
+  | varint max => exact varintOk _ (hm m h).2
+
+example : received (.varint (some 300)) [.data [3, 1], .pending, .pending, .data [2, 3, 0, 0x82], .data [0x01],
+      .data (List.replicate 100 5), .pending, .data (List.replicate 30 5)] =
+    [.frame [1, 2, 3], .frame [], .frame (List.replicate 130 5)] ∧
+    encodeAll (.varint (some 300)) [[1, 2, 3], [], List.replicate 130 5] = [3, 1, 2, 3, 0, 0x82, 0x01] ++ List.replicate 130 5 := by
+  decide
+
+/-- **Oversized incoming length.** With `UnsignedVarint(Some(max))`, a length prefix announcing more
+than `max` (followed by anything, fragmented anyhow) makes the first result of the reader an error —
+not a frame, not a panic (`no_oob`), and no buffer is allocated for it (`alloc_bound`). -/
+theorem oversize_error (m L : Nat) (rest : Bytes) (hL : L < 2 ^ 64) (hbig : m < L)
+    (car : Carrier) (hd : DataOnly car) (hb : carBytes car = encodeUsize L ++ rest) :
+    (received (.varint (some m)) car).head? = some (.err .readFailure) := by
+  unfold received recvAll
+  rw [recvAllF_consume _ (by simp) _ _ car (rinv_init _) hd (by omega), hb]
+  exact consume_oversize m L rest _ (idle_init _) hL hbig
+
+example : received (.varint (some 10)) [.data [11], .pending, .data [1, 2, 3]] = [.err .readFailure, .frame [2], ] := by decide
+
+/-- **Malformed incoming length.** Ten continuation bytes in a row (no terminating byte within
+`usize_buffer`), for every `max` including `None`: the first result of the reader is an error. -/
+theorem malformed_len_error (max : Option Nat) (pre : Bytes) (b : Nat) (rest : Bytes)
+    (hpre : ∀ x ∈ pre, isLast x = false) (hb : isLast b = false) (hlen : pre.length + 1 = USIZE_LEN)
+    (car : Carrier) (hd : DataOnly car) (hbytes : carBytes car = pre ++ [b] ++ rest) :
+    (received (.varint max) car).head? = some (.err .readFailure) := by
+  unfold received recvAll
+  rw [recvAllF_consume _ (by simp) _ _ car (rinv_init _) hd (by omega), hbytes]
+  exact consume_overlong max pre b rest _ (idle_init _) hpre hb hlen
+
+example : received (.varint none) [.data (List.replicate 10 0x80), .data [0x80, 0x01]] = [.err .readFailure] ∧
+    received (.varint none) [.data [0x80, 0x00, 5]] = [.err .readFailure] := by decide
 
 /-! ## Sender -/
 
@@ -149,6 +198,29 @@ theorem sink_eq_send_framed (codec : Codec) (item : Bytes) (st' : WState)
 example : (startSend (.identity 2) WState.init [8, 9]).1 = .ok ∧
     (pollFlush [.accept 0, .pending, .accept 0] (startSend (.identity 2) WState.init [8, 9]).2 .ready).1 = .pending := by decide
 
+/-- **A completed flush delivers.** End to end: after any history of sink operations whose last one
+is a `poll_flush` that returned `Ready(Ok)` (any flow-control behaviour before), a reader fed the
+bytes the carrier was given — in any fragmentation, with no further action by the sender — returns
+exactly the accepted messages, in order. -/
+theorem flush_delivers (codec : Codec) (hc : codec ≠ .identity 0) (ops : List SinkOp) (evs : List WrEv) (fl : FlEv)
+    (hne : ∀ op ∈ ops ++ [.flush evs fl], OpNoErr op)
+    (hready : (sinkRun codec (ops ++ [.flush evs fl])).last = .ready)
+    (hlen : ∀ m ∈ (sinkRun codec (ops ++ [.flush evs fl])).accepted, m.length < 2 ^ 64)
+    (car : Carrier) (hd : DataOnly car) (hb : carBytes car = (sinkRun codec (ops ++ [.flush evs fl])).wire) :
+    received codec car = (sinkRun codec (ops ++ [.flush evs fl])).accepted.map .frame := by
+  have hinv := sinkRun_inv codec (ops ++ [.flush evs fl]) hne
+  have hacc := sinkRun_accepts codec (ops ++ [.flush evs fl])
+  have hq := sinkRun_flush_ready codec ops evs fl (fun op h => hne op (List.mem_append_left _ h))
+    (hne _ (by simp)) hready
+  apply stream_roundtrip codec hc _ (fun m h => ⟨hacc m h, hlen m h⟩) car hd
+  rw [hb, ← hinv.1, hq]; simp
+
+example :
+    let r := sinkRun (.identity 2) [.send [1, 2] [] .ready, .flush [.accept 0, .pending] .ready,
+      .send [3, 4] [] .ready, .send [5] [] .ready, .flush [.accept 0, .accept 5] .ready]
+    r.last = .ready ∧ r.wire = [1, 2, 3, 4] ∧ r.accepted = [[1, 2], [3, 4]] ∧
+    received (.identity 2) [.data [1], .data [2, 3, 4]] = [.frame [1, 2], .frame [3, 4]] := by decide
+
 #print axioms no_oob
 #print axioms alloc_bound
 #print axioms oversize_refused
@@ -156,5 +228,9 @@ example : (startSend (.identity 2) WState.init [8, 9]).1 = .ok ∧
 #print axioms flush_complete
 #print axioms send_framed_complete
 #print axioms sink_eq_send_framed
+#print axioms stream_roundtrip
+#print axioms oversize_error
+#print axioms malformed_len_error
+#print axioms flush_delivers
 
 end Litep2pVerif.Props.C04
